@@ -15,8 +15,8 @@ import (
 	"sort"
 	"sync/atomic"
 
+	"verif/engine/chainsim"
 	"verif/engine/evid"
-
 )
 
 type scope struct {
@@ -211,6 +211,9 @@ func replay(r *evid.Run) {
 }
 
 func main() {
+	if chainsim.IsChild() {
+		chainsim.ChildMain(appSpec)
+	}
 	r := evid.Start("C11", "exploration")
 	initGlobals()
 	if r.ReplayFile != "" {
@@ -244,7 +247,7 @@ func main() {
 	r.Assume("A9: state merging assumes AddVerifiedExecutorCommitment/ProcessCommitments are deterministic functions of the exported Pool fields, the committee and their arguments (Pool is a plain serializable struct); results A/B are interchangeable.")
 	r.Assume("A10: the unanimity clause is accepted as justification also after a discrepancy was declared (literal reading of 'either ... or').")
 	r.Assume("A11: committee shapes whose (primary, backup, stragglers) triple registry.ExecutorParameters.ValidateBasic would refuse (stragglers > size) are explored as well; the clauses are evaluated literally there.")
-	r.Assume("App level (roothash application turning the outcome into Normal / RoundFailed blocks) is NOT covered by this check: no chain simulator engine with runtimes exists in /verif yet.")
+	r.Assume("App level: chain histories with a compute runtime are executed on the real multiplexer; chainsim.RoundMonitor checks that a Normal runtime block appears only with a quorum among the ACCEPTED executor commitments of the round (unanimity clause or backup majority after a discrepancy event), that RoundFailed / epoch blocks keep the state root, that rounds advance by one and that an expired round timer produces an outcome; failure indications count as present votes (weaker reading).")
 
 	debug.SetGCPercent(400)
 	writeSamples(r)
@@ -334,5 +337,10 @@ func main() {
 	})
 
 	r.Exhaustive(aborted.Load() == 0 && r.Violations() == 0)
+
+	// App level: roothash application on generated chain histories with a runtime.
+	debug.SetGCPercent(100)
+	runAppLevel(r)
+
 	r.Finish(r.Pick(500, 2000))
 }
